@@ -84,6 +84,15 @@ pub fn judge_input(bytes: &[u8]) -> Result<bool, (String, String)> {
             format!("written bytes differ from the input at offset {i} ({reg}): wrote {:02x?}, input has {:02x?}; lengths {} vs {}", out.get(i), want.get(i), out.len(), want.len()),
         ));
     }
+    // the same bytes must arrive in a sink that only implements write() and takes a few bytes per call
+    for max in [3usize, 1000] {
+        let mut pw = crate::util::PlainWriter { out: Vec::new(), max };
+        pkg.write(&mut pw).map_err(|e| ("write-fails:plain-writer".to_string(), format!("writing into a plain {max}-bytes-per-call writer fails: {e}")))?;
+        if pw.out != out {
+            let i = first_diff(&pw.out, &out).unwrap_or(0);
+            return Err(("rewrite-differs:plain-writer".into(), format!("a writer that takes {max} bytes per call receives {} bytes, a Vec receives {}; first difference at offset {i}", pw.out.len(), out.len())));
+        }
+    }
     // fixpoint
     let again = Package::parse(&mut &out[..]).map_err(|e| ("fixpoint:reparse-fails".to_string(), format!("written bytes do not parse: {e}")))?;
     if again.metadata != pkg.metadata || again.content != pkg.content {
